@@ -518,6 +518,11 @@ def intersection(*args, **kwargs):
             def __iter__(self):
                 start_pos = [None] * (len(self.fibers) - 1)
 
+                # A position saved by an earlier, unrelated search of a
+                # follower must not be taken for a shortcut of this loop
+                for fiber in self.fibers[1:]:
+                    fiber.setSavedPos(0)
+
                 is_collecting = Metrics.isCollecting()
                 leader_traced = False
                 traces = [""] * len(self.fibers)
